@@ -323,7 +323,7 @@ def install_stage_wrappers():
         if t is not None:
             t["base"] = stats3(trial["tree"])
         return trial
-    hyper.base_trial_fn = base
+    _REC["base_orig"], _REC["base_wrapped"] = orig_base, base
 
 
 def trial_fields(trial):
@@ -405,6 +405,8 @@ def run_case(spec):
     else:
         raise ValueError(mode)
 
+    # the recording wrapper is a closure (not picklable): only where trials run in this process
+    hyper.base_trial_fn = _REC["base_wrapped"] if instrument else _REC["base_orig"]
     random.seed(spec["seed"])
     log = []
     _REC.update(on=instrument, trial=None, log=log, fault=None)
@@ -486,6 +488,7 @@ def run_case(spec):
         obs["warnings"] = sorted({str(w.message)[:120] for w in wlist})[:5]
     finally:
         hyper.time = real_time
+        hyper.base_trial_fn = _REC["base_orig"]
         _REC.update(on=False, trial=None, fault=None)
         if executor is not None:
             executor.shutdown(wait=True)
@@ -634,7 +637,8 @@ def run_specs(specs, nproc=14, per_case=30.0):
                 p.kill()
                 out, _ = p.communicate()
                 timed_out = True
-            lines = [ln[2:] for ln in out.split("\n") if ln.startswith("@@")]
+            # a path finder's native library may print on stdout: take what follows the marker
+            lines = [ln[ln.index("@@") + 2:] for ln in out.split("\n") if "@@" in ln]
             for i, ln in zip(idxs, lines):
                 results[i] = json.loads(ln)
             done = len(lines)
@@ -1126,8 +1130,17 @@ def run(ctx):
         instrumented = spec["mode"] in ("serial", "scripted")
         # ---- (f) the recorded score sequence through the model's selection rule
         bi = obs["best"]["tree"] if instrumented else None
-        if obs["scores"]:
+        if obs["scores"] and len(set(obs["lens"])) == 1:
             pos = py_argmin_first(obs["scores"])
+            # where the tree the optimizer kept was reported (identity of the tree object)
+            if instrumented and obs["best"]["has_tree"] and obs["best"]["tree"] is not None:
+                k = obs["best"]["tree"]
+                if spec["mode"] == "serial":
+                    pos = k
+                elif k in obs["pool"]["taken"]:
+                    pos = obs["pool"]["taken"].index(k)
+            elif instrumented and not obs["best"]["has_tree"]:
+                pos = None
             argmin_cases.append((label, "argmin_first %s" % lst(pyf_lit(s) for s in obs["scores"]),
                                  "(@None nat)" if pos is None else "(Some %d%%nat)" % pos))
             argmin_recs.append({"spec": spec, "label": label, "scores": obs["scores"]})
